@@ -492,7 +492,7 @@ def run(tier, seed):
     sb, _ = b3.validate("ConvertObs", [cp, base_p, cf1, base_f, cf2], consts)
     st = {"ok": sorted({b[0] for b in sb}) == [0, 2, 4], "reported": sorted({b[0] for b in sb})}
     cov["obs_selftest"] = st
-    if not st["ok"]:
+    if st["ok"] is False:
         raise vlib.Inconclusive("observation self-test failed: %r" % st)
 
     npath = sum(1 for o in obs if o["t"] == "path")
